@@ -1102,44 +1102,54 @@ Proof.
 Qed.
 End MsgFields.
 
-(* ---------------------------------------------------------------- greedy "for pending == num" loops that append to a slice *)
+(* ---------------------------------------------------------------- greedy "for pending == num" loops that update one slot *)
 Section Greedy.
+Context {A : Type}.
 Variable h : token -> msgv -> option msgv.
 Variables (f : Z) (slot : nat) (B : nat).
-Variable elems : token -> option (list val).
-Variable R : nat -> dstate -> list val -> dstate * list val.
+Variables (proj : val -> A) (inj : A -> val).
+Hypothesis Hpi : forall a, proj (inj a) = a.
+Variable upd : token -> option (A -> A).          (* what one occurrence does to the slot's content *)
+Variable R : nat -> dstate -> A -> dstate * A.
 Hypothesis Hf : valid_number f = true.
 Hypothesis Hh : forall tok t, t_num tok = f -> h tok t =
-  match elems tok with
-  | Some xs => Some (set_nth (fst t) slot (VList (as_list (nth slot (fst t) (VInt 0)) ++ xs)), snd t)
+  match upd tok with
+  | Some g => Some (set_nth (fst t) slot (inj (g (proj (nth slot (fst t) (VInt 0))))), snd t)
   | None => None
   end.
-Hypothesis R0 : forall st l, R 0 st l = (st, l).
-Hypothesis Rno : forall fuel st l, pf st <> f -> R fuel st l = (st, l).
-Hypothesis Riter : forall fuel st l, err st = None -> bytes_ok (buf st) -> (blen st <= B)%nat -> pf st = f ->
+Hypothesis R0 : forall st a, R 0 st a = (st, a).
+Hypothesis Rno : forall fuel st a, pf st <> f -> R fuel st a = (st, a).
+Hypothesis Riter : forall fuel st a, err st = None -> bytes_ok (buf st) -> (blen st <= B)%nat -> pf st = f ->
   match parse_value f (pw st) (buf st) with
-  | None => err (fst (R (S fuel) st l)) <> None /\ bytes_ok (buf (fst (R (S fuel) st l)))
+  | None => err (fst (R (S fuel) st a)) <> None /\ bytes_ok (buf (fst (R (S fuel) st a)))
   | Some (p, kk) =>
-      match elems (tok_of st p kk) with
-      | None => err (fst (R (S fuel) st l)) <> None /\ bytes_ok (buf (fst (R (S fuel) st l)))
-      | Some xs => R (S fuel) st l = R fuel (next_field (Z.of_nat kk) st) (l ++ xs)
+      match upd (tok_of st p kk) with
+      | None => err (fst (R (S fuel) st a)) <> None /\ bytes_ok (buf (fst (R (S fuel) st a)))
+      | Some g => R (S fuel) st a = R fuel (next_field (Z.of_nat kk) st) (g a)
       end
   end.
 
-Lemma greedy_loop fs un : forall fuel st vs tc, rep_inv slot fs tc vs -> err st = None -> bytes_ok (buf st) -> (blen st <= B)%nat -> pf st = f ->
-  let '(st', l) := R (S fuel) st vs in step_ok h st (tc, un) st' (set_nth fs slot (VList l), un).
+Definition gen_inv (fs tc : list val) (a : A) : Prop :=
+  forall g : A -> A, set_nth tc slot (inj (g (proj (nth slot tc (VInt 0))))) = set_nth fs slot (inj (g a)).
+Lemma gen_inv_next fs a : gen_inv fs (set_nth fs slot (inj a)) a.
+Proof. intros g. apply (set_nth_upd proj inj g fs slot a Hpi). Qed.
+Lemma gen_inv_start fs : gen_inv fs fs (proj (nth slot fs (VInt 0))).
+Proof. intros g. reflexivity. Qed.
+
+Lemma greedy_loop fs un : forall fuel st a tc, gen_inv fs tc a -> err st = None -> bytes_ok (buf st) -> (blen st <= B)%nat -> pf st = f ->
+  let '(st', a') := R (S fuel) st a in step_ok h st (tc, un) st' (set_nth fs slot (inj a'), un).
 Proof.
-  induction fuel as [|fuel IH]; intros st vs tc Hinv He Hb HBl Hpf.
-  - pose proof (Riter 0 st vs He Hb HBl Hpf) as Hi.
-    destruct (R 1 st vs) as [st' l] eqn:Ed. apply one_token_step; [exact He|exact Hb|]. rewrite Hpf.
+  induction fuel as [|fuel IH]; intros st a tc Hinv He Hb HBl Hpf.
+  - pose proof (Riter 0 st a He Hb HBl Hpf) as Hi.
+    destruct (R 1 st a) as [st' a'] eqn:Ed. apply one_token_step; [exact He|exact Hb|]. rewrite Hpf.
     destruct (parse_value f (pw st) (buf st)) as [[p kk]|]; [|exact Hi].
-    rewrite Hh by (cbn; exact Hpf). destruct (elems (tok_of st p kk)) as [xs|]; [|exact Hi].
+    rewrite Hh by (cbn; exact Hpf). destruct (upd (tok_of st p kk)) as [g|]; [|exact Hi].
     rewrite R0 in Hi. injection Hi as -> ->. cbn [fst snd]. split; [reflexivity|]. rewrite Hinv. reflexivity.
-  - pose proof (Riter (S fuel) st vs He Hb HBl Hpf) as Hi.
+  - pose proof (Riter (S fuel) st a He Hb HBl Hpf) as Hi.
     destruct (parse_value f (pw st) (buf st)) as [[p kk]|] eqn:Ep.
-    + destruct (elems (tok_of st p kk)) as [xs|] eqn:Ee.
-      * rewrite Hi. set (st1 := next_field (Z.of_nat kk) st). set (vs1 := vs ++ xs).
-        assert (S1 : step_ok h st (tc, un) st1 (set_nth fs slot (VList vs1), un)).
+    + destruct (upd (tok_of st p kk)) as [g|] eqn:Ee.
+      * rewrite Hi. set (st1 := next_field (Z.of_nat kk) st). set (a1 := g a).
+        assert (S1 : step_ok h st (tc, un) st1 (set_nth fs slot (inj a1), un)).
         { apply one_token_step; [exact He|exact Hb|]. rewrite Hpf, Ep. rewrite Hh by (cbn; exact Hpf). rewrite Ee.
           cbn [fst snd]. split; [reflexivity|]. rewrite Hinv. reflexivity. }
         destruct (Z.eqb_spec (pf st1) f) as [E1|E1].
@@ -1147,17 +1157,17 @@ Proof.
            assert (He1 : err st1 = None) by (unfold st1 in *; rewrite next_field_valid_err by exact Hv1; exact He).
            assert (HB1 : (blen st1 <= B)%nat) by (pose proof (adv_weak _ _ (adv_next_field (Z.of_nat kk) st)); unfold st1; lia).
            destruct S1 as [Hb1 S1'].
-           specialize (IH st1 vs1 (set_nth fs slot (VList vs1)) (rep_inv_next slot fs vs1) He1 Hb1 HB1 E1).
-           destruct (R (S fuel) st1 vs1) as [st2 l2].
-           apply (step_ok_trans h st (tc, un) st1 (set_nth fs slot (VList vs1), un) st2 (set_nth fs slot (VList l2), un) (conj Hb1 S1')).
+           specialize (IH st1 a1 (set_nth fs slot (inj a1)) (gen_inv_next fs a1) He1 Hb1 HB1 E1).
+           destruct (R (S fuel) st1 a1) as [st2 a2].
+           apply (step_ok_trans h st (tc, un) st1 (set_nth fs slot (inj a1), un) st2 (set_nth fs slot (inj a2), un) (conj Hb1 S1')).
            ++ destruct IH as [Hb2 _]. exact Hb2.
            ++ intros Hc. congruence.
            ++ intros _ _. right. exact IH.
            ++ intros _ Hc. congruence.
         -- rewrite Rno by exact E1. exact S1.
-      * destruct (R (S (S fuel)) st vs) as [st' l]. apply one_token_step; [exact He|exact Hb|]. rewrite Hpf, Ep.
+      * destruct (R (S (S fuel)) st a) as [st' a']. apply one_token_step; [exact He|exact Hb|]. rewrite Hpf, Ep.
         rewrite Hh by (cbn; exact Hpf). rewrite Ee. exact Hi.
-    + destruct (R (S (S fuel)) st vs) as [st' l]. apply one_token_step; [exact He|exact Hb|]. rewrite Hpf, Ep. exact Hi.
+    + destruct (R (S (S fuel)) st a) as [st' a']. apply one_token_step; [exact He|exact Hb|]. rewrite Hpf, Ep. exact Hi.
 Qed.
 End Greedy.
 
@@ -1169,10 +1179,10 @@ Proof.
   destruct (fn (push_state msg st) l) as [inner' l']. apply IH. apply bytes_ok_next_field. exact Hb.
 Qed.
 
-Definition rep_msg_elems (s : schema) (rrec : nat -> bytes -> msgv -> option msgv) (idx : nat) (ptr : bool) (tok : token) : option (list val) :=
+Definition rep_msg_elems (s : schema) (rrec : nat -> bytes -> msgv -> option msgv) (idx : nat) (ptr : bool) (tok : token) : option (list val -> list val) :=
   match t_pay tok with
   | PBytes b => match rrec idx b (zero_of s idx) with
-                | Some x => Some [if ptr then VMsg (Some x) else VEmb (fst x) (snd x)]
+                | Some x => Some (fun l => l ++ [if ptr then VMsg (Some x) else VEmb (fst x) (snd x)])
                 | None => None
                 end
   | _ => None
@@ -1182,7 +1192,7 @@ Lemma hfield_rep_msg s rrec m slot f idx tok t :
   f_custom f = CNone -> fty f = TMsg idx -> i_repeated (field_info s f) = true -> foneof f = None ->
   hfield s rrec m slot f tok t =
   match rep_msg_elems s rrec idx (i_pointer (field_info s f)) tok with
-  | Some xs => Some (set_nth (fst t) slot (VList (as_list (nth slot (fst t) (VInt 0)) ++ xs)), snd t)
+  | Some g => Some (set_nth (fst t) slot (VList (g (as_list (nth slot (fst t) (VInt 0))))), snd t)
   | None => None
   end.
 Proof.
@@ -1214,7 +1224,7 @@ Lemma repmsg_iter idx f (ptr : bool) fuel st l : valid_number f = true ->
   | Some (p, kk) =>
       match rep_msg_elems s rrec idx ptr (tok_of st p kk) with
       | None => err (fst (dec_repeated_message (S fuel) f fn st l)) <> None /\ bytes_ok (buf (fst (dec_repeated_message (S fuel) f fn st l)))
-      | Some xs => dec_repeated_message (S fuel) f fn st l = dec_repeated_message fuel f fn (next_field (Z.of_nat kk) st) (l ++ xs)
+      | Some g => dec_repeated_message (S fuel) f fn st l = dec_repeated_message fuel f fn (next_field (Z.of_nat kk) st) (g l)
       end
   end.
 Proof.
@@ -1264,12 +1274,12 @@ Proof.
             let '(st1, t1) := (let '(st', l) := dec_repeated_message F (fnum f) fn st (as_list (slot_get (fst t) slot)) in (st', set_slot t slot (VList l))) in
             step_ok h st t st1 t1).
   { intros ptr Eptr Hpf fn.
-    pose proof (greedy_loop h (fnum f) slot B (rep_msg_elems s rrec idx ptr) (fun fuel st0 l0 => dec_repeated_message fuel (fnum f) fn st0 l0) Hv) as Hl'.
+    pose proof (greedy_loop h (fnum f) slot B as_list VList ltac:(reflexivity) (rep_msg_elems s rrec idx ptr) (fun fuel st0 l0 => dec_repeated_message fuel (fnum f) fn st0 l0) Hv) as Hl'.
     specialize (Hl' ltac:(intros tok t0 E; rewrite (Hhs tok t0 E), <- Eptr; reflexivity) ltac:(reflexivity)).
     specialize (Hl' ltac:(intros fuel st0 l0 Hne; destruct fuel; [reflexivity|]; cbn [dec_repeated_message];
                           replace (fnum f =? pf st0) with false by (symmetry; apply Z.eqb_neq; congruence); reflexivity)).
     specialize (Hl' ltac:(intros fuel st0 l0 He0 Hb0 HB0 Hpf0; apply (repmsg_iter idx (fnum f) ptr fuel st0 l0 Hv He0 Hb0 HB0 Hpf0))).
-    specialize (Hl' (fst t) (snd t) F' st (as_list (slot_get (fst t) slot)) (fst t) ltac:(intros xs; reflexivity) He Hb HB Hpf).
+    specialize (Hl' (fst t) (snd t) F' st (as_list (slot_get (fst t) slot)) (fst t) ltac:(intros g; reflexivity) He Hb HB Hpf).
     cbv beta in Hl'. fold F in Hl'.
     destruct (dec_repeated_message F (fnum f) fn st (as_list (slot_get (fst t) slot))) as [st' l]. destruct t as [fs un]. exact Hl'. }
   destruct (i_pointer (field_info s f)) eqn:Ep; injection Hg as <-;
@@ -1279,16 +1289,535 @@ Proof.
 Qed.
 End RepMsgFields.
 
+(* ---------------------------------------------------------------- two-field helper messages (sec/nanos, map entries) *)
+Section Mini.
+Context {T : Type}.
+Definition sreader (k : kind) (num : Z) (get : T -> val) (set : T -> val -> T) : reader T dstate :=
+  {| rmatch := fun st => pf st =? num;
+     rrun := fun st t => let '(st', x) := dec_single k num st (get t) in (st', set t x) |}.
+
+Variables (k1 k2 : kind) (get1 get2 : T -> val) (set1 set2 : T -> val -> T).
+Hypothesis Hsg1 : forall t, set1 t (get1 t) = t.
+Hypothesis Hsg2 : forall t, set2 t (get2 t) = t.
+Let readers := [sreader k1 1 get1 set1; sreader k2 2 get2 set2].
+Definition mini_h (tok : token) (t : T) : option T :=
+  if t_num tok =? 1 then match tok_scalar k1 tok with Some x => Some (set1 t x) | None => None end
+  else if t_num tok =? 2 then match tok_scalar k2 tok with Some x => Some (set2 t x) | None => None end
+  else Some t.
+
+Lemma mini_body_pass st t :
+  pass_list _ _ readers st t =
+  (let '(st1, x) := dec_single k1 1 st (get1 t) in let '(st2, y) := dec_single k2 2 st1 (get2 (set1 t x)) in (st2, set2 (set1 t x) y)).
+Proof.
+  unfold pass_list, readers. cbn [fold_left]. unfold step. cbn [fst snd rrun sreader].
+  destruct (dec_single k1 1 st (get1 t)) as [st1 x]. cbn [fst snd]. reflexivity.
+Qed.
+
+Lemma mini_decode_ok F b st0 t : bytes_ok b -> (length b + 3 <= F)%nat -> err st0 = None ->
+  let '(st', t') := Dec.loop F (fun st t => pass_list _ _ readers st t) (push_state b st0) t in
+  match tokens b with
+  | None => err st' <> None
+  | Some ts => match fold_opt mini_h ts (Some t) with
+               | Some t'' => err st' = None /\ t' = t''
+               | None => err st' <> None
+               end
+  end.
+Proof.
+  intros Hb HF He0.
+  assert (Hin : forall r, In r readers -> (r = sreader k1 1 get1 set1 \/ r = sreader k2 2 get2 set2)) by (intros r [<-|[<-|[]]]; auto).
+  assert (HLE : forall st t n n', pf_inv st -> (blen st + 3 <= n)%nat -> (blen st + 2 <= n')%nat ->
+            Dec.loop n (fun st t => pass_list _ _ readers st t) st t = loop1 _ _ pfv skip readers n' st t).
+  { intros st2 t2 n n' Hi Hn Hn'. rewrite loop_is_abstract.
+    apply (loop_equiv _ _ pfv blen skip readers pf_inv); try assumption.
+    - intros r st1 t1 Hr Hi1. destruct (Hin r Hr) as [->| ->]; cbn [rrun sreader].
+      + pose proof (single_inv k1 1 st1 (get1 t1) Hi1) as H. destruct (dec_single k1 1 st1 (get1 t1)). exact H.
+      + pose proof (single_inv k2 2 st1 (get2 t1) Hi1) as H. destruct (dec_single k2 2 st1 (get2 t1)). exact H.
+    - intros st1 _. apply inv_next_field.
+    - intros r st1 Hr _ Hm. destruct (Hin r Hr) as [->| ->]; cbn [rmatch sreader] in Hm; apply Z.eqb_eq in Hm; unfold pfv; rewrite Hm; reflexivity.
+    - intros r st1 t1 Hr _ Hm. destruct (Hin r Hr) as [->| ->]; cbn [rmatch rrun sreader] in *; apply Z.eqb_neq in Hm;
+        rewrite dec_single_other by congruence; [rewrite Hsg1|rewrite Hsg2]; reflexivity.
+    - intros r st1 t1 Hr _ Hm. destruct (Hin r Hr) as [->| ->]; cbn [rmatch rrun sreader] in *; apply Z.eqb_eq in Hm.
+      + pose proof (single_adv k1 1 st1 (get1 t1) Hm) as H. destruct (dec_single k1 1 st1 (get1 t1)). exact H.
+      + pose proof (single_adv k2 2 st1 (get2 t1) Hm) as H. destruct (dec_single k2 2 st1 (get2 t1)). exact H.
+    - intros i j ri rj st1 _ Hi1 Hj1 Mi Mj. unfold readers in Hi1, Hj1.
+      destruct i as [|[|i]]; destruct j as [|[|j]]; cbn in Hi1, Hj1; try reflexivity; try (destruct i; discriminate); try (destruct j; discriminate);
+        injection Hi1 as <-; injection Hj1 as <-; cbn [rmatch sreader] in *; apply Z.eqb_eq in Mi; apply Z.eqb_eq in Mj; lia.
+    - intros st1 _. apply skip_progress. }
+  assert (Hst : forall r, In r readers -> reader_sticky r).
+  { intros r Hr st1 t1 He. destruct (Hin r Hr) as [->| ->]; cbn [rrun sreader].
+    - pose proof (single_sticky k1 1 st1 (get1 t1) He) as H. destruct (dec_single k1 1 st1 (get1 t1)). exact H.
+    - pose proof (single_sticky k2 2 st1 (get2 t1) He) as H. destruct (dec_single k2 2 st1 (get2 t1)). exact H. }
+  assert (Hro : forall r, In r readers -> reader_ok mini_h (length b) r).
+  { intros r Hr st1 t1 _ He Hb1 _ Hm. destruct (Hin r Hr) as [->| ->]; cbn [rmatch rrun sreader] in *; apply Z.eqb_eq in Hm.
+    - pose proof (single_step mini_h k1 1 get1 set1 st1 t1 He Hb1 Hm) as Hs. destruct (dec_single k1 1 st1 (get1 t1)) as [st2 x].
+      apply Hs. intros tok E. unfold mini_h. rewrite E. reflexivity.
+    - pose proof (single_step mini_h k2 2 get2 set2 st1 t1 He Hb1 Hm) as Hs. destruct (dec_single k2 2 st1 (get2 t1)) as [st2 x].
+      apply Hs. intros tok E. unfold mini_h. rewrite E. reflexivity. }
+  assert (Hsk : forall st1 t1, (blen st1 <= length b)%nat -> err st1 = None -> bytes_ok (buf st1) -> pfv st1 = true ->
+            find (fun r => rmatch _ _ r st1) readers = None -> step_ok mini_h st1 t1 (skip st1) t1).
+  { intros st1 t1 _ He Hb1 _ Hf. apply skip_step; [exact He|exact Hb1|]. intros p kk _. unfold mini_h, tok_of. cbn [t_num].
+    unfold readers in Hf. cbn [find rmatch sreader] in Hf.
+    destruct (pf st1 =? 1); [discriminate|]. destruct (pf st1 =? 2); [discriminate|]. reflexivity. }
+  unfold push_state. destruct b as [|y l].
+  - change (next_field 0 {| pf := 0; pw := 0; buf := []; err := err st0 |}) with (mkst fieldDone 0 [] (err st0)).
+    rewrite (HLE _ t F F); [|right; left; reflexivity|unfold blen; cbn; lia|unfold blen; cbn; lia].
+    rewrite loop1_invalid by reflexivity. rewrite tokens_nil. cbn. split; [exact He0|reflexivity].
+  - pose proof (tokens_enter (y :: l) 0 0 (err st0) Hb ltac:(discriminate)) as Hent. cbn zeta in Hent.
+    change {| pf := 0; pw := 0; buf := y :: l; err := err st0 |} with (mkst 0 0 (y :: l) (err st0)).
+    set (st := next_field 0 (mkst 0 0 (y :: l) (err st0))) in *.
+    destruct Hent as [[Hv [Hee [Hst' [Hlen Hbb]]]]|[Hee [Hpf Htk]]].
+    + rewrite (HLE st t F F); [|left; exact Hv|unfold blen; lia|unfold blen; lia].
+      pose proof (loop1_stream mini_h (length (y :: l)) readers Hro Hst Hsk F st t ltac:(unfold blen; lia) ltac:(unfold blen; lia)
+                    ltac:(congruence) Hbb Hv) as Hs.
+      destruct (loop1 T dstate pfv skip readers F st t) as [st' t'].
+      rewrite Hst' in Hs. destruct (tokens (y :: l)) as [ts|]; [|exact Hs].
+      destruct (fold_opt mini_h ts (Some t)) as [t''|]; [|exact Hs]. tauto.
+    + assert (Hw : (blen st <= length (y :: l))%nat).
+      { pose proof (adv_weak _ _ (adv_next_field 0 (mkst 0 0 (y :: l) (err st0)))) as Hw. unfold blen in *. cbn [buf mkst] in Hw. exact Hw. }
+      rewrite (HLE st t F F); [|right; right; exact Hpf|lia|lia].
+      rewrite loop1_invalid by (unfold pfv; rewrite Hpf; reflexivity). rewrite Htk. exact Hee.
+Qed.
+End Mini.
+
+(* ---------------------------------------------------------------- picoconv casts: Timestamp and Duration *)
+Definition sn_get1 (sn : Z * Z) : val := VInt (fst sn).
+Definition sn_set1 (sn : Z * Z) (v : val) : Z * Z := (as_int v, snd sn).
+Definition sn_get2 (sn : Z * Z) : val := VInt (snd sn).
+Definition sn_set2 (sn : Z * Z) (v : val) : Z * Z := (fst sn, as_int v).
+Definition sn_h := mini_h KInt64 KInt32 sn_set1 sn_set2.
+
+Lemma dec_sec_nanos_pass st sn :
+  dec_sec_nanos st sn = pass_list _ _ [sreader KInt64 1 sn_get1 sn_set1; sreader KInt32 2 sn_get2 sn_set2] st sn.
+Proof.
+  rewrite mini_body_pass. unfold dec_sec_nanos, sn_get1, sn_set1, sn_get2, sn_set2. cbn [fst snd].
+  destruct (dec_single KInt64 1 st (VInt (fst sn))) as [st1 v1]. destruct (dec_single KInt32 2 st1 (VInt (snd sn))) as [st2 v2]. reflexivity.
+Qed.
+
+Lemma sec_nanos_of_fold b : sec_nanos_of b = match tokens b with Some ts => fold_opt sn_h ts (Some (0, 0)) | None => None end.
+Proof.
+  unfold sec_nanos_of. destruct (tokens b) as [ts|]; [|reflexivity]. unfold fold_opt. generalize (Some (0, 0)) as acc.
+  induction ts as [|tok ts IH]; intros acc; [reflexivity|]. cbn [fold_left]. rewrite <- IH. f_equal.
+  destruct acc as [[sec nanos]|]; [|reflexivity]. unfold sn_h, mini_h, sn_set1, sn_set2. cbn [fst snd].
+  destruct (t_num tok =? 1); [destruct (tok_scalar KInt64 tok); reflexivity|].
+  destruct (t_num tok =? 2); [destruct (tok_scalar KInt32 tok); reflexivity|reflexivity].
+Qed.
+
+Lemma sec_nanos_inner F b st0 : bytes_ok b -> (length b + 3 <= F)%nat -> err st0 = None ->
+  let '(st', sn') := Dec.loop F dec_sec_nanos (push_state b st0) (0, 0) in
+  match sec_nanos_of b with Some sn'' => err st' = None /\ sn' = sn'' | None => err st' <> None end.
+Proof.
+  intros Hb HF He0.
+  pose proof (mini_decode_ok KInt64 KInt32 sn_get1 sn_get2 sn_set1 sn_set2 ltac:(intros [a c]; reflexivity) ltac:(intros [a c]; reflexivity)
+                F b st0 (0, 0) Hb HF He0) as H.
+  assert (E : Dec.loop F dec_sec_nanos (push_state b st0) (0, 0) =
+              Dec.loop F (fun st t => pass_list _ _ [sreader KInt64 1 sn_get1 sn_set1; sreader KInt32 2 sn_get2 sn_set2] st t) (push_state b st0) (0, 0)).
+  { generalize (push_state b st0) as st. generalize (0, 0) as sn. clear. induction F as [|F IH]; intros sn st; [reflexivity|].
+    cbn [Dec.loop]. rewrite dec_sec_nanos_pass. destruct (pass_list _ _ _ st sn) as [st1 sn1].
+    destruct (negb (valid_number (pf st1))); [reflexivity|]. destruct (same_len (buf st1) (buf st)); apply IH. }
+  rewrite E. destruct (Dec.loop F _ (push_state b st0) (0, 0)) as [st' sn']. rewrite sec_nanos_of_fold.
+  destruct (tokens b) as [ts|]; exact H.
+Qed.
+
+Definition cast_custom (c : cast) : custom := match c with CastTs => CTimestamp | CastDur => CDuration | CastMap _ _ => CNone end.
+
+Section CastStep.
+Variable h : token -> msgv -> option msgv.
+Variables (F B : nat).
+Hypothesis HB : (B + 3 <= F)%nat.
+
+(* PicoDecode of one Timestamp / Duration occurrence *)
+Lemma cast_elem_step c st t field v (put : val -> msgv) : c = CastTs \/ c = CastDur ->
+  err st = None -> bytes_ok (buf st) -> pf st = field -> (blen st <= B)%nat ->
+  (forall tok, t_num tok = field -> h tok t =
+     match t_pay tok with PBytes b => match cast_value (cast_custom c) b with Some x => Some (put x) | None => None end | _ => None end) ->
+  let '(st1, x) := dec_cast_elem F c field st v in step_ok h st t st1 (put x).
+Proof.
+  intros Hc He Hb Hpf HBl Hh.
+  assert (Hinner : forall b, bytes_ok b -> (length b <= B)%nat ->
+            let '(st', sn') := Dec.loop F dec_sec_nanos (push_state b st) (0, 0) in
+            match sec_nanos_of b with Some sn'' => err st' = None /\ sn' = sn'' | None => err st' <> None end).
+  { intros b Hbb Hlb. apply sec_nanos_inner; [exact Hbb|lia|exact He]. }
+  destruct Hc as [-> | ->]; cbn [dec_cast_elem cast_custom] in *.
+  - unfold dec_timestamp. rewrite Hpf, Z.eqb_refl. cbn [negb].
+    pose proof (dec_message_step h F B st t field dec_sec_nanos (0, 0) sec_nanos_of
+                  (fun sn => put (let '(a, n) := time_unix (fst sn) (snd sn) in VTime a n)) He Hb Hpf HBl Hinner) as Hs.
+    destruct (dec_message F field dec_sec_nanos st (0, 0)) as [st1 [sec nanos]]. cbn [fst snd] in Hs.
+    destruct (time_unix sec nanos) as [a n] eqn:Et. apply Hs.
+    intros tok E. rewrite (Hh tok E). destruct (t_pay tok); try reflexivity. unfold cast_value.
+    destruct (sec_nanos_of b) as [[s0 n0]|]; [|reflexivity]. cbn [fst snd]. destruct (time_unix s0 n0); reflexivity.
+  - unfold dec_duration. rewrite Hpf, Z.eqb_refl. cbn [negb].
+    pose proof (dec_message_step h F B st t field dec_sec_nanos (0, 0) sec_nanos_of
+                  (fun sn => put (VDur (dur_join (fst sn) (snd sn)))) He Hb Hpf HBl Hinner) as Hs.
+    destruct (dec_message F field dec_sec_nanos st (0, 0)) as [st1 [sec nanos]]. cbn [fst snd] in Hs. apply Hs.
+    intros tok E. rewrite (Hh tok E). destruct (t_pay tok); try reflexivity. unfold cast_value.
+    destruct (sec_nanos_of b) as [[s0 n0]|]; reflexivity.
+Qed.
+End CastStep.
+
+(* functional form of one Message/PresentMessage call *)
+Definition bad_run {V} (r : dstate * V) : Prop := err (fst r) <> None /\ bytes_ok (buf (fst r)).
+
+Lemma dec_message_fn {V} F B st field (fn : @body V) (v0 : V) (res : bytes -> option V) :
+  err st = None -> bytes_ok (buf st) -> pf st = field -> (blen st <= B)%nat ->
+  (forall b, bytes_ok b -> (length b <= B)%nat ->
+     let '(st', v') := Dec.loop F fn (push_state b st) v0 in
+     match res b with Some v'' => err st' = None /\ v' = v'' | None => err st' <> None end) ->
+  match parse_value field (pw st) (buf st) with
+  | None => bad_run (dec_message F field fn st v0)
+  | Some (p, kk) =>
+      match p with
+      | PBytes b => match res b with
+                    | Some v => dec_message F field fn st v0 = (next_field (Z.of_nat kk) st, v)
+                    | None => bad_run (dec_message F field fn st v0)
+                    end
+      | _ => bad_run (dec_message F field fn st v0)
+      end
+  end.
+Proof.
+  intros He Hb Hpf HBl Hinner. unfold dec_message, bad_run. rewrite Hpf, Z.eqb_refl. cbn [negb].
+  destruct (Z.eqb_spec (pw st) BytesType) as [Ew|Ew]; cbn [negb].
+  - change BytesType with 2 in Ew. rewrite Ew. pose proof (consume_bytes_parse field (buf st) Hb) as Hc.
+    destruct (parse_value field 2 (buf st)) as [[p kk]|] eqn:Ep.
+    + destruct Hc as [b [-> [Ec [Hbb Hlb]]]]. rewrite Ec. replace (Z.of_nat kk <? 0) with false by (symmetry; apply Z.ltb_ge; lia).
+      specialize (Hinner b Hbb ltac:(unfold blen in HBl; lia)).
+      destruct (Dec.loop F fn (push_state b st) v0) as [inner' v'].
+      destruct (res b) as [v''|].
+      * destruct Hinner as [Hei ->]. rewrite pop_state_same by congruence. reflexivity.
+      * cbn [fst]. split; [apply next_field_err_sticky; cbn [pop_state err]; exact Hinner|apply bytes_ok_next_field; cbn [pop_state buf]; exact Hb].
+    + destruct (consume_bytes (buf st)) as [b n]. cbn [snd] in Hc. replace (n <? 0) with true by (symmetry; apply Z.ltb_lt; lia).
+      cbn. split; [discriminate|exact Hb].
+  - destruct (parse_value field (pw st) (buf st)) as [[p kk]|] eqn:Ep; [|cbn; split; [discriminate|exact Hb]].
+    pose proof (parse_value_wire _ _ _ _ _ Ep) as Hw. destruct p; try (cbn; split; [discriminate|exact Hb]). exfalso. apply Ew. exact Hw.
+Qed.
+
+Lemma cast_elem_fn F B c st field v : (B + 3 <= F)%nat -> c = CastTs \/ c = CastDur ->
+  err st = None -> bytes_ok (buf st) -> pf st = field -> (blen st <= B)%nat ->
+  match parse_value field (pw st) (buf st) with
+  | None => bad_run (dec_cast_elem F c field st v)
+  | Some (p, kk) =>
+      match p with
+      | PBytes b => match cast_value (cast_custom c) b with
+                    | Some x => dec_cast_elem F c field st v = (next_field (Z.of_nat kk) st, x)
+                    | None => bad_run (dec_cast_elem F c field st v)
+                    end
+      | _ => bad_run (dec_cast_elem F c field st v)
+      end
+  end.
+Proof.
+  intros HB Hc He Hb Hpf HBl.
+  assert (Hinner : forall b, bytes_ok b -> (length b <= B)%nat ->
+            let '(st', sn') := Dec.loop F dec_sec_nanos (push_state b st) (0, 0) in
+            match sec_nanos_of b with Some sn'' => err st' = None /\ sn' = sn'' | None => err st' <> None end).
+  { intros b Hbb Hlb. apply sec_nanos_inner; [exact Hbb|lia|exact He]. }
+  pose proof (dec_message_fn F B st field dec_sec_nanos (0, 0) sec_nanos_of He Hb Hpf HBl Hinner) as Hm.
+  destruct Hc as [-> | ->]; cbn [dec_cast_elem cast_custom]; unfold bad_run in *.
+  - unfold dec_timestamp. rewrite Hpf, Z.eqb_refl. cbn [negb].
+    destruct (parse_value field (pw st) (buf st)) as [[p kk]|].
+    + destruct p as [pv|pv|pv|b|]; try (revert Hm; destruct (dec_message F field dec_sec_nanos st (0, 0)) as [st1 [a c]]; intros Hm; cbn [fst] in *; try destruct (time_unix a c); exact Hm).
+      unfold cast_value. destruct (sec_nanos_of b) as [[s0 n0]|].
+      * rewrite Hm. destruct (time_unix s0 n0). reflexivity.
+      * revert Hm; destruct (dec_message F field dec_sec_nanos st (0, 0)) as [st1 [a c]]; intros Hm; cbn [fst] in *; try destruct (time_unix a c); exact Hm.
+    + revert Hm; destruct (dec_message F field dec_sec_nanos st (0, 0)) as [st1 [a c]]; intros Hm; cbn [fst] in *; try destruct (time_unix a c); exact Hm.
+  - unfold dec_duration. rewrite Hpf, Z.eqb_refl. cbn [negb].
+    destruct (parse_value field (pw st) (buf st)) as [[p kk]|].
+    + destruct p as [pv|pv|pv|b|]; try (revert Hm; destruct (dec_message F field dec_sec_nanos st (0, 0)) as [st1 [a c]]; intros Hm; cbn [fst] in *; try destruct (time_unix a c); exact Hm).
+      unfold cast_value. destruct (sec_nanos_of b) as [[s0 n0]|].
+      * rewrite Hm. reflexivity.
+      * revert Hm; destruct (dec_message F field dec_sec_nanos st (0, 0)) as [st1 [a c]]; intros Hm; cbn [fst] in *; try destruct (time_unix a c); exact Hm.
+    + revert Hm; destruct (dec_message F field dec_sec_nanos st (0, 0)) as [st1 [a c]]; intros Hm; cbn [fst] in *; try destruct (time_unix a c); exact Hm.
+Qed.
+
+Lemma message_bytes_ok {V} F f (fn : @body V) st v : bytes_ok (buf st) -> bytes_ok (buf (fst (dec_message F f fn st v))).
+Proof.
+  intros Hb. unfold dec_message. destruct (negb (f =? pf st)); [exact Hb|]. destruct (negb (pw st =? BytesType)); [exact Hb|].
+  destruct (consume_bytes (buf st)) as [msg n]. destruct (n <? 0); [exact Hb|].
+  destruct (Dec.loop F fn (push_state msg st) v) as [inner' v']. cbn [fst]. apply bytes_ok_next_field. exact Hb.
+Qed.
+Lemma cast_elem_bytes_ok F c f st v : c = CastTs \/ c = CastDur -> bytes_ok (buf st) -> bytes_ok (buf (fst (dec_cast_elem F c f st v))).
+Proof.
+  intros [-> | ->] Hb; cbn [dec_cast_elem].
+  - unfold dec_timestamp. destruct (negb (pf st =? f)); [destruct v; exact Hb|].
+    pose proof (message_bytes_ok F f dec_sec_nanos st (0, 0) Hb) as H. destruct (dec_message F f dec_sec_nanos st (0, 0)) as [st' [a b]].
+    destruct (time_unix a b). exact H.
+  - unfold dec_duration. destruct (negb (pf st =? f)); [exact Hb|].
+    pose proof (message_bytes_ok F f dec_sec_nanos st (0, 0) Hb) as H. destruct (dec_message F f dec_sec_nanos st (0, 0)) as [st' [a b]]. exact H.
+Qed.
+Lemma while_bytes_ok num step : (forall st l, bytes_ok (buf st) -> bytes_ok (buf (fst (step st l)))) ->
+  forall fuel st l, bytes_ok (buf st) -> bytes_ok (buf (fst (while_pending fuel num step st l))).
+Proof.
+  intros Hs. induction fuel as [|fuel IH]; intros st l Hb; [exact Hb|]. cbn [while_pending].
+  destruct (pf st =? num); [|exact Hb]. pose proof (Hs st l Hb) as H1. destruct (step st l) as [st' l']. apply IH. exact H1.
+Qed.
+
+Lemma info_cast s f : f_custom f = CTimestamp \/ f_custom f = CDuration ->
+  i_kind (field_info s f) = GCast (match f_custom f with CTimestamp => CastTs | _ => CastDur end).
+Proof. intros [H|H]; unfold field_info; rewrite H; destruct (fty f); try destruct (is_bytes_kind k); reflexivity. Qed.
+
+Lemma hfield_cast s rrec m slot f tok t : f_custom f = CTimestamp \/ f_custom f = CDuration ->
+  hfield s rrec m slot f tok t =
+  match t_pay tok with
+  | PBytes b =>
+      match cast_value (f_custom f) b with
+      | None => None
+      | Some x =>
+          Some (set_nth (clear_siblings m f slot (fst t)) slot
+                  (if i_repeated (field_info s f) then VList (as_list (nth slot (fst t) (VInt 0)) ++ [if i_pointer (field_info s f) then VOpt (Some x) else x])
+                   else if i_oneof (field_info s f) || i_pointer (field_info s f) then VOpt (Some x) else x), snd t)
+      end
+  | _ => None
+  end.
+Proof.
+  intros Hc. unfold hfield, apply_known.
+  destruct Hc as [Hc|Hc]; rewrite Hc; (destruct (t_pay tok) as [pv|pv|pv|b|]; try reflexivity);
+    destruct (cast_value _ b) as [x|]; try reflexivity; destruct (i_repeated (field_info s f)); try reflexivity;
+    destruct (i_oneof (field_info s f) || i_pointer (field_info s f)); reflexivity.
+Qed.
+
+Section CastFields.
+Variables (s : schema) (progs : list prog) (F' : nat).
+Let F := S F'.
+Variable rec : nat -> @body msgv.
+Variable rrec : nat -> bytes -> msgv -> option msgv.
+Variable m : mdesc.
+Variable h : token -> msgv -> option msgv.
+Variable B : nat.
+Hypothesis HB : (B + 3 <= F)%nat.
+Hypothesis rec_sticky : forall idx, sticky_fn (rec idx).
+
+(* Timestamp / Duration fields of every shape: value, pointer, oneof member, slices of values or pointers *)
+Lemma cast_field_ok slot f op :
+  f_custom f = CTimestamp \/ f_custom f = CDuration -> valid_number (fnum f) = true ->
+  (foneof f <> None -> i_repeated (field_info s f) = false) ->
+  gen_field_decode s (oneof_siblings m f slot) slot f = GOk op ->
+  (forall tok t, t_num tok = fnum f -> h tok t = hfield s rrec m slot f tok t) ->
+  reader_ok h B (op_reader progs F rec op).
+Proof.
+  intros Hc Hv Hor Hg Hh.
+  set (c := match f_custom f with CTimestamp => CastTs | _ => CastDur end).
+  assert (Hcc : c = CastTs \/ c = CastDur) by (unfold c; destruct Hc as [-> | ->]; auto).
+  assert (Hcu : cast_custom c = f_custom f) by (unfold c; destruct Hc as [-> | ->]; reflexivity).
+  pose proof (info_oneof s f) as Hone.
+  assert (Hhs : forall tok t, t_num tok = fnum f -> h tok t = _) by (intros tok t E; rewrite (Hh tok t E); apply (hfield_cast s rrec m slot f tok t Hc)).
+  clear Hh. unfold gen_field_decode in Hg. rewrite (info_cast s f Hc) in Hg. fold c in Hg.
+  intros st t HBl He Hb _ Hm. cbn [op_reader rmatch rrun] in *.
+  destruct (foneof f) as [o|] eqn:Eo.
+  - (* oneof member *)
+    rewrite Hone in Hg. injection Hg as <-. rewrite Hone in Hhs. specialize (Hor ltac:(discriminate)). rewrite Hor in Hhs.
+    cbn [op_match] in Hm. unfold dec_op. cbn [op_match]. rewrite Hm. cbn [dec_op_run]. rewrite Hm. apply Z.eqb_eq in Hm.
+    rewrite clear_siblings_model.
+    match goal with |- context[dec_cast_elem F c (fnum f) st ?cur] =>
+      pose proof (cast_elem_step h F B HB c st t (fnum f) cur (fun x => set_slot (clear_siblings m f slot (fst t), snd t) slot (VOpt (Some x))) Hcc He Hb Hm HBl) as Hs;
+      destruct (dec_cast_elem F c (fnum f) st cur) as [st1 x] end.
+    apply Hs. intros tok E. rewrite (Hhs tok t E), Hcu. cbn [orb]. destruct (t_pay tok) as [pv|pv|pv|b|]; try reflexivity; destruct (cast_value (f_custom f) b); reflexivity.
+  - rewrite Hone in Hg, Hhs. cbn [orb] in Hhs. injection Hg as <-.
+    assert (Hcl : forall fs0, clear_siblings m f slot fs0 = fs0) by (intros; apply clear_siblings_none; exact Eo).
+    cbn [op_match] in Hm. unfold dec_op. cbn [op_match]. rewrite Hm. cbn [dec_op_run]. pose proof Hm as Hm'. apply Z.eqb_eq in Hm.
+    destruct (i_repeated (field_info s f)) eqn:Er.
+    + (* slices *)
+      assert (G : forall ptr : bool, ptr = i_pointer (field_info s f) ->
+                let step := fun c0 (l : list val) => let '(c1, x) := dec_cast_elem F c (fnum f) c0 (cast_zero c) in (c1, l ++ [if ptr then VOpt (Some x) else x]) in
+                let '(st1, t1) := (let '(st', l) := while_pending F (fnum f) step st (as_list (slot_get (fst t) slot)) in (st', set_slot t slot (VList l))) in
+                step_ok h st t st1 t1).
+      { intros ptr Eptr step.
+        assert (S1 : forall st0 l0, pf_inv st0 -> pf_inv (fst (step st0 l0))).
+        { intros st0 l0 Hi0. unfold step. pose proof (cast_elem_inv F' c (fnum f) st0 (cast_zero c) Hv Hi0) as H. fold F in H. destruct (dec_cast_elem F c (fnum f) st0 (cast_zero c)). exact H. }
+        assert (S2 : forall st0 l0, pf st0 = fnum f -> adv st0 (fst (step st0 l0))).
+        { intros st0 l0 E0. unfold step. pose proof (cast_elem_adv F' c (fnum f) st0 (cast_zero c) Hv E0) as H. fold F in H. destruct (dec_cast_elem F c (fnum f) st0 (cast_zero c)). exact H. }
+        assert (S3 : forall st0 l0, err st0 <> None -> err (fst (step st0 l0)) <> None).
+        { intros st0 l0 He0. unfold step. pose proof (cast_elem_sticky F' c (fnum f) st0 (cast_zero c) Hv He0) as H. fold F in H. destruct (dec_cast_elem F c (fnum f) st0 (cast_zero c)). exact H. }
+        assert (S4 : forall st0 l0, bytes_ok (buf st0) -> bytes_ok (buf (fst (step st0 l0)))).
+        { intros st0 l0 Hb0. unfold step. pose proof (cast_elem_bytes_ok F c (fnum f) st0 (cast_zero c) Hcc Hb0) as H. destruct (dec_cast_elem F c (fnum f) st0 (cast_zero c)). exact H. }
+        pose proof (greedy_loop h (fnum f) slot B as_list VList ltac:(reflexivity)
+                      (fun tok => match t_pay tok with
+                                  | PBytes b => match cast_value (f_custom f) b with
+                                                | Some x => Some (fun l : list val => l ++ [if ptr then VOpt (Some x) else x]) | None => None end
+                                  | _ => None end)
+                      (fun fuel st0 l0 => while_pending fuel (fnum f) step st0 l0) Hv) as Hl'.
+        specialize (Hl' ltac:(intros tok t0 E; rewrite (Hhs tok t0 E), Hcl, <- Eptr; destruct (t_pay tok); try reflexivity; destruct (cast_value (f_custom f) b); reflexivity)
+                        ltac:(reflexivity)).
+        specialize (Hl' ltac:(intros fuel st0 l0 Hne; destruct fuel; [reflexivity|]; cbn [while_pending];
+                              replace (pf st0 =? fnum f) with false by (symmetry; apply Z.eqb_neq; exact Hne); reflexivity)).
+        assert (Hit : forall fuel st0 l0, err st0 = None -> bytes_ok (buf st0) -> (blen st0 <= B)%nat -> pf st0 = fnum f ->
+                  match parse_value (fnum f) (pw st0) (buf st0) with
+                  | None => err (fst (while_pending (S fuel) (fnum f) step st0 l0)) <> None /\ bytes_ok (buf (fst (while_pending (S fuel) (fnum f) step st0 l0)))
+                  | Some (p, kk) =>
+                      match (match t_pay (tok_of st0 p kk) with
+                             | PBytes b => match cast_value (f_custom f) b with
+                                           | Some x => Some (fun l : list val => l ++ [if ptr then VOpt (Some x) else x]) | None => None end
+                             | _ => None end) with
+                      | None => err (fst (while_pending (S fuel) (fnum f) step st0 l0)) <> None /\ bytes_ok (buf (fst (while_pending (S fuel) (fnum f) step st0 l0)))
+                      | Some g => while_pending (S fuel) (fnum f) step st0 l0 = while_pending fuel (fnum f) step (next_field (Z.of_nat kk) st0) (g l0)
+                      end
+                  end).
+        { intros fuel st0 l0 He0 Hb0 HB0 Hpf0. cbn [while_pending]. rewrite Hpf0, Z.eqb_refl.
+          pose proof (cast_elem_fn F B c st0 (fnum f) (cast_zero c) HB Hcc He0 Hb0 Hpf0 HB0) as Hfn. rewrite Hcu in Hfn. unfold bad_run in Hfn.
+          assert (Hbad : err (fst (dec_cast_elem F c (fnum f) st0 (cast_zero c))) <> None /\ bytes_ok (buf (fst (dec_cast_elem F c (fnum f) st0 (cast_zero c)))) ->
+                    err (fst (let '(st', l') := step st0 l0 in while_pending fuel (fnum f) step st' l')) <> None /\
+                    bytes_ok (buf (fst (let '(st', l') := step st0 l0 in while_pending fuel (fnum f) step st' l')))).
+          { intros [Hbe Hbb]. unfold step at 1 3. destruct (dec_cast_elem F c (fnum f) st0 (cast_zero c)) as [c1 x]. cbn [fst] in *.
+            destruct (while_facts (fnum f) step Hv S1 S2 S3 fuel c1 (l0 ++ [if ptr then VOpt (Some x) else x])) as [_ [_ [I3 _]]].
+            split; [apply I3, Hbe|apply (while_bytes_ok (fnum f) step S4), Hbb]. }
+          destruct (parse_value (fnum f) (pw st0) (buf st0)) as [[p kk]|]; [|apply Hbad, Hfn].
+          cbn [tok_of t_pay]. destruct p as [pv|pv|pv|b|]; try (apply Hbad, Hfn).
+          destruct (cast_value (f_custom f) b) as [x|]; [|apply Hbad, Hfn].
+          unfold step at 1. rewrite Hfn. reflexivity. }
+        specialize (Hl' Hit (fst t) (snd t) F' st (as_list (slot_get (fst t) slot)) (fst t) ltac:(intros g; reflexivity) He Hb HBl Hm).
+        cbv beta in Hl'. fold F in Hl'.
+        destruct (while_pending F (fnum f) step st (as_list (slot_get (fst t) slot))) as [st' l]. destruct t as [fs un]. exact Hl'. }
+      destruct (i_pointer (field_info s f)) eqn:Ep; [apply (G true eq_refl)|apply (G false eq_refl)].
+    + destruct (i_pointer (field_info s f)) eqn:Ep.
+      * rewrite Hm'.
+        match goal with |- context[dec_cast_elem F c (fnum f) st ?cur] =>
+          pose proof (cast_elem_step h F B HB c st t (fnum f) cur (fun x => set_slot t slot (VOpt (Some x))) Hcc He Hb Hm HBl) as Hs;
+          destruct (dec_cast_elem F c (fnum f) st cur) as [st1 x] end.
+        apply Hs. intros tok E. rewrite (Hhs tok t E), Hcu, Hcl. destruct (t_pay tok) as [pv|pv|pv|b|]; try reflexivity; destruct (cast_value (f_custom f) b); reflexivity.
+      * match goal with |- context[dec_cast_elem F c (fnum f) st ?cur] =>
+          pose proof (cast_elem_step h F B HB c st t (fnum f) cur (fun x => set_slot t slot x) Hcc He Hb Hm HBl) as Hs;
+          destruct (dec_cast_elem F c (fnum f) st cur) as [st1 x] end.
+        apply Hs. intros tok E. rewrite (Hhs tok t E), Hcu, Hcl. destruct (t_pay tok) as [pv|pv|pv|b|]; try reflexivity; destruct (cast_value (f_custom f) b); reflexivity.
+Qed.
+End CastFields.
+
+(* ---------------------------------------------------------------- maps (the 180 picowire codecs) *)
+Definition me_set1 (kv : val * val) (x : val) : val * val := (x, snd kv).
+Definition me_set2 (kv : val * val) (x : val) : val * val := (fst kv, x).
+Definition me_h (kk vk : kind) := mini_h (T := val * val) kk vk me_set1 me_set2.
+
+Lemma entry_body_pass kk vk st kv :
+  entry_body kk vk st kv = pass_list _ _ [sreader kk 1 (@fst val val) me_set1; sreader vk 2 (@snd val val) me_set2] st kv.
+Proof.
+  rewrite mini_body_pass. unfold entry_body, me_set1, me_set2. cbn [fst snd].
+  destruct (dec_single kk 1 st (fst kv)) as [c1 k1]. destruct (dec_single vk 2 c1 (snd kv)) as [c2 v1]. reflexivity.
+Qed.
+
+Lemma map_entry_of_fold kk vk b :
+  map_entry_of kk vk b = match tokens b with Some ts => fold_opt (me_h kk vk) ts (Some (zero_scalar kk, zero_scalar vk)) | None => None end.
+Proof.
+  unfold map_entry_of. destruct (tokens b) as [ts|]; [|reflexivity]. unfold fold_opt. generalize (Some (zero_scalar kk, zero_scalar vk)) as acc.
+  induction ts as [|tok ts IH]; intros acc; [reflexivity|]. cbn [fold_left]. rewrite <- IH. f_equal.
+  destruct acc as [[k v]|]; [|reflexivity]. unfold me_h, mini_h, me_set1, me_set2. cbn [fst snd].
+  destruct (t_num tok =? 1); [destruct (tok_scalar kk tok); reflexivity|].
+  destruct (t_num tok =? 2); [destruct (tok_scalar vk tok); reflexivity|reflexivity].
+Qed.
+
+Lemma entry_inner kk vk F b st0 : bytes_ok b -> (length b + 3 <= F)%nat -> err st0 = None ->
+  let '(st', kv') := Dec.loop F (entry_body kk vk) (push_state b st0) (zero_scalar kk, zero_scalar vk) in
+  match map_entry_of kk vk b with Some kv'' => err st' = None /\ kv' = kv'' | None => err st' <> None end.
+Proof.
+  intros Hb HF He0.
+  pose proof (mini_decode_ok kk vk (@fst val val) (@snd val val) me_set1 me_set2 ltac:(intros [a c]; reflexivity) ltac:(intros [a c]; reflexivity)
+                F b st0 (zero_scalar kk, zero_scalar vk) Hb HF He0) as H.
+  assert (E : forall kv st, Dec.loop F (entry_body kk vk) st kv =
+              Dec.loop F (fun st t => pass_list _ _ [sreader kk 1 (@fst val val) me_set1; sreader vk 2 (@snd val val) me_set2] st t) st kv).
+  { clear. induction F as [|F IH]; intros kv st; [reflexivity|].
+    cbn [Dec.loop]. rewrite entry_body_pass. destruct (pass_list _ _ _ st kv) as [st1 kv1].
+    destruct (negb (valid_number (pf st1))); [reflexivity|]. destruct (same_len (buf st1) (buf st)); apply IH. }
+  rewrite E. destruct (Dec.loop F _ (push_state b st0) (zero_scalar kk, zero_scalar vk)) as [st' kv']. rewrite map_entry_of_fold.
+  destruct (tokens b) as [ts|]; exact H.
+Qed.
+
+Lemma map_set_spec l k v : map_set l k v key_eqb = spec_map_set l k v.
+Proof. reflexivity. Qed.
+
+Definition map_upd (kk vk : kind) (tok : token) : option (list (val * val) -> list (val * val)) :=
+  match t_pay tok with
+  | PBytes b => match map_entry_of kk vk b with Some (k, v) => Some (fun l => spec_map_set l k v) | None => None end
+  | _ => None
+  end.
+
+Lemma map_iter F' B kk vk f fuel st l : (B + 3 <= S F')%nat -> valid_number f = true ->
+  err st = None -> bytes_ok (buf st) -> (blen st <= B)%nat -> pf st = f ->
+  match parse_value f (pw st) (buf st) with
+  | None => bad_run (dec_repeated_message (S fuel) f (map_fn F' kk vk) st l)
+  | Some (p, kk0) =>
+      match map_upd kk vk (tok_of st p kk0) with
+      | None => bad_run (dec_repeated_message (S fuel) f (map_fn F' kk vk) st l)
+      | Some g => dec_repeated_message (S fuel) f (map_fn F' kk vk) st l =
+                  dec_repeated_message fuel f (map_fn F' kk vk) (next_field (Z.of_nat kk0) st) (g l)
+      end
+  end.
+Proof.
+  intros HB Hf He Hb HBl Hpf. unfold bad_run.
+  cbn [dec_repeated_message]. rewrite Hpf, Z.eqb_refl. cbn [negb]. unfold map_upd, tok_of. cbn [t_pay].
+  destruct (Z.eqb_spec (pw st) BytesType) as [Ew|Ew]; cbn [negb].
+  - change BytesType with 2 in Ew. rewrite Ew. pose proof (consume_bytes_parse f (buf st) Hb) as Hc.
+    destruct (parse_value f 2 (buf st)) as [[p kk0]|] eqn:Ep.
+    + destruct Hc as [b [-> [Ec [Hbb Hlb]]]]. rewrite Ec. replace (Z.of_nat kk0 <? 0) with false by (symmetry; apply Z.ltb_ge; lia).
+      pose proof (entry_inner kk vk (S F') b st Hbb ltac:(unfold blen in HBl; lia) He) as Hin.
+      destruct (Dec.loop (S F') (entry_body kk vk) (push_state b st) (zero_scalar kk, zero_scalar vk)) as [c' [k v]] eqn:Eloop.
+      assert (Efn : map_fn F' kk vk (push_state b st) l = (c', map_set l k v key_eqb)) by (unfold map_fn; rewrite Eloop; reflexivity).
+      rewrite Efn. destruct (map_entry_of kk vk b) as [[k0 v0]|].
+      * destruct Hin as [Hec Ekv]. injection Ekv as -> ->. rewrite pop_state_same by congruence. rewrite map_set_spec. reflexivity.
+      * split.
+        -- destruct (repmsg_facts f (map_fn F' kk vk) Hf fuel (next_field (Z.of_nat kk0) (pop_state st c')) (map_set l k v key_eqb)) as [_ [_ [I3 _]]].
+           apply I3; [apply map_fn_sticky|]. apply next_field_err_sticky. cbn [pop_state err]. exact Hin.
+        -- apply repmsg_bytes_ok. apply bytes_ok_next_field. cbn [pop_state buf]. exact Hb.
+    + destruct (consume_bytes (buf st)) as [b n]. cbn [snd] in Hc. replace (n <? 0) with true by (symmetry; apply Z.ltb_lt; lia).
+      cbn. split; [discriminate|exact Hb].
+  - destruct (parse_value f (pw st) (buf st)) as [[p kk0]|] eqn:Ep; [|cbn; split; [discriminate|exact Hb]].
+    pose proof (parse_value_wire _ _ _ _ _ Ep) as Hw. destruct p; try (cbn; split; [discriminate|exact Hb]). exfalso. apply Ew. exact Hw.
+Qed.
+
+Lemma hfield_map s rrec m slot f kk vk tok t : f_custom f = CNone -> fty f = TMap kk vk -> foneof f = None ->
+  hfield s rrec m slot f tok t =
+  match map_upd kk vk tok with
+  | Some g => Some (set_nth (fst t) slot (VMap (g (match nth slot (fst t) (VInt 0) with VMap l => l | _ => [] end))), snd t)
+  | None => None
+  end.
+Proof.
+  intros Hc Ht Ho. unfold hfield, apply_known, map_upd. rewrite Hc, Ht, (clear_siblings_none m f slot (fst t) Ho).
+  destruct (t_pay tok); try reflexivity. destruct (map_entry_of kk vk b) as [[k v]|]; reflexivity.
+Qed.
+
+Section MapFields.
+Variables (s : schema) (progs : list prog) (F' : nat).
+Let F := S F'.
+Variable rec : nat -> @body msgv.
+Variable rrec : nat -> bytes -> msgv -> option msgv.
+Variable m : mdesc.
+Variable h : token -> msgv -> option msgv.
+Variable B : nat.
+Hypothesis HB : (B + 3 <= F)%nat.
+
+(* map fields: every key/value kind pair; entries in any order, duplicate keys, missing key or value *)
+Lemma map_field_ok kk vk slot f op :
+  f_custom f = CNone -> fty f = TMap kk vk -> foneof f = None -> valid_number (fnum f) = true ->
+  gen_field_decode s (oneof_siblings m f slot) slot f = GOk op ->
+  (forall tok t, t_num tok = fnum f -> h tok t = hfield s rrec m slot f tok t) ->
+  reader_ok h B (op_reader progs F rec op).
+Proof.
+  intros Hc Ht Hno Hv Hg Hh.
+  assert (Hhs : forall tok t, t_num tok = fnum f -> h tok t = _) by (intros tok t E; rewrite (Hh tok t E); apply (hfield_map s rrec m slot f kk vk tok t Hc Ht Hno)).
+  clear Hh.
+  assert (Hop : op = DCast (CastMap kk vk) false false slot (fnum f)).
+  { unfold gen_field_decode, field_info in Hg. rewrite Hc, Ht, Hno in Hg. cbn in Hg. destruct (flabel f); cbn in Hg;
+      destruct (f_always_present f); cbn in Hg; injection Hg as <-; reflexivity. }
+  subst op. intros st t HBl He Hb _ Hm. cbn [op_reader rmatch rrun op_match] in *.
+  unfold dec_op. cbn [op_match]. rewrite Hm. cbn [dec_op_run dec_cast_elem]. apply Z.eqb_eq in Hm. unfold F in *. rewrite dec_map_unfold.
+  pose proof (greedy_loop h (fnum f) slot B (fun v => match v with VMap l => l | _ => [] end) VMap ltac:(reflexivity)
+                (map_upd kk vk) (fun fuel st0 l0 => dec_repeated_message fuel (fnum f) (map_fn F' kk vk) st0 l0) Hv Hhs ltac:(reflexivity)) as Hl.
+  specialize (Hl ltac:(intros fuel st0 l0 Hne; destruct fuel; [reflexivity|]; cbn [dec_repeated_message];
+                       replace (fnum f =? pf st0) with false by (symmetry; apply Z.eqb_neq; congruence); reflexivity)).
+  specialize (Hl ltac:(intros fuel st0 l0 He0 Hb0 HB0 Hpf0; apply (map_iter F' B kk vk (fnum f) fuel st0 l0 HB Hv He0 Hb0 HB0 Hpf0))).
+  specialize (Hl (fst t) (snd t) F' st (match slot_get (fst t) slot with VMap l => l | _ => [] end) (fst t) ltac:(intros g; reflexivity) He Hb HBl Hm).
+  cbv beta in Hl.
+  destruct (dec_repeated_message (S F') (fnum f) (map_fn F' kk vk) st (match slot_get (fst t) slot with VMap l => l | _ => [] end)) as [st' l].
+  destruct t as [fs un]. exact Hl.
+Qed.
+End MapFields.
+
 (* ---------------------------------------------------------------- T_dec by induction on the nesting fuel *)
 Definition scalar_like (f : fdesc) : Prop := exists k, fty f = TScalar k \/ (fty f = TEnum /\ k = KInt32).
 
 (* the fields whose statements have a proved token contract *)
 Definition supported (s : schema) (f : fdesc) : Prop :=
-  f_custom f = CNone /\
-  ((scalar_like f /\ (flabel f <> LRepeated \/ foneof f = None)) \/
-   (exists idx, fty f = TMsg idx /\
-      ((flabel f <> LRepeated /\ (foneof f <> None -> i_pointer (field_info s f) = true)) \/
-       (flabel f = LRepeated /\ foneof f = None)))).
+  (f_custom f = CNone /\
+   ((scalar_like f /\ (flabel f <> LRepeated \/ foneof f = None)) \/
+    (exists idx, fty f = TMsg idx /\
+       ((flabel f <> LRepeated /\ (foneof f <> None -> i_pointer (field_info s f) = true)) \/
+        (flabel f = LRepeated /\ foneof f = None))) \/
+    (exists kk vk, fty f = TMap kk vk /\ foneof f = None))) \/
+  ((f_custom f = CTimestamp \/ f_custom f = CDuration) /\ (foneof f <> None -> i_repeated (field_info s f) = false)).
 
 Definition supported_schema (s : schema) : Prop := forall m, In m s -> forall f, In f (mfields m) -> supported s f.
 
@@ -1315,7 +1844,7 @@ Lemma field_contract fuel m : In m s -> (forall idx, msg_rel fuel idx) ->
 Proof.
   intros Hm IH slot f op Hin Hg Hh. pose proof (number_from_In _ _ _ Hin) as Hf.
   destruct (Hwf m Hm) as [_ Hv]. destruct (Hv f Hf) as [Hvn _].
-  destruct (Hsup m Hm f Hf) as [Hc [[[k Hk] Hlab]|[midx [Hty Hlab]]]].
+  destruct (Hsup m Hm f Hf) as [[Hc [[[k Hk] Hlab]|[[midx [Hty Hlab]]|[kk [vk [Hty Hno]]]]]]|[Hc Hor]].
   - destruct (flabel f) eqn:El.
     + apply (scalar_like_ok s progs F' _ (ref_decode fuel s) m _ B k slot f op Hc Hk ltac:(rewrite El; discriminate) Hg Hh).
     + apply (scalar_like_ok s progs F' _ (ref_decode fuel s) m _ B k slot f op Hc Hk ltac:(rewrite El; discriminate) Hg Hh).
@@ -1324,6 +1853,8 @@ Proof.
   - destruct Hlab as [[Hl Hp]|[Hl Hno]].
     + apply (msg_field_ok s progs F' _ (ref_decode fuel s) m _ B Hgen IH midx slot f op Hc Hty Hl Hp Hg Hh).
     + apply (rep_msg_field_ok s progs F' _ (ref_decode fuel s) m _ B Hgen (dec_msg_sticky s progs F' Hgen Hwf fuel) IH midx slot f op Hc Hty Hl Hno Hvn Hg Hh).
+  - apply (map_field_ok s progs F' _ (ref_decode fuel s) m _ B HB kk vk slot f op Hc Hty Hno Hvn Hg Hh).
+  - apply (cast_field_ok s progs F' _ (ref_decode fuel s) m _ B HB slot f op Hc Hvn Hor Hg Hh).
 Qed.
 
 Theorem T_dec_msg : forall fuel idx, msg_rel fuel idx.
